@@ -387,6 +387,15 @@ static void map_faults(vh_rng* r, int is_tree, int strkeys, int size) {
   FAULT(c, dump_map, FC_KEY, "rem", "absent-key", rem(c, absent));
   FAULT(c, dump_map, FC_KEY, "get", "absent-key-2", get(c, absent2));
   FAULT(c, dump_map, FC_KEY, "rem", "absent-key-2", rem(c, absent2));
+  if (!strkeys && size > 0) {
+    /* a chained lookup: the key is the object a previous get handed out, a value stored inside the map itself (the
+       values are odd, the keys even: no stored value is a key) */
+    var stored = get(c, $I(((size - 1) / 2) * 2));
+    FAULT(c, dump_map, FC_KEY, "get", "absent-key-that-is-a-stored-value", get(c, stored));
+    stored = get(c, $I(0));
+    FAULT(c, dump_map, FC_KEY, "rem", "absent-key-that-is-a-stored-value", rem(c, stored));
+    vh_count("stored_values_offered_as_absent_keys");
+  }
   if (!strkeys) {
     FAULT(c, dump_map, FC_KEY, "get", "absent-INT64_MAX", get(c, $I(INT64_MAX)));
     FAULT(c, dump_map, FC_KEY, "rem", "absent-INT64_MIN", rem(c, $I(INT64_MIN)));
